@@ -84,7 +84,7 @@ def run(tier):
         return R.finish(VC.TRUSTED, VC.ASSUME, RULE, "make -C coq Properties/C15.vo")
     M, F = common.Model(), common.Ref()
     rng = R.rng
-    cases = VC.gen_pairs(R, 1500 if tier == "quick" else 30000, locals_=False)
+    cases = VC.gen_pairs(R, 1500 if tier == "quick" else 30000, locals_=False) + VC.edge_pairs(R, 300 if tier == "quick" else 6000)
     seen = {}
     for c in cases:
         objs = []
